@@ -60,7 +60,7 @@ Section Once.
     pose proof (ap_nobad K P b E m HI HB Hnb Hn m1 pr Hr) as [Hnb2 Hn2]. fold m2 in Hnb2, Hn2.
     pose proof (ap_frm K P b E m HI HB m1 pr Hr) as HF2. fold m2 in HF2.
     pose proof (ap_buf K P b E m HI HB Hnb Hn Hc m1 pr Hr) as HB2. fold m2 in HB2.
-    assert (Hc2 : st_collecting m2 = true) by (rewrite R9; exact Hc).
+    assert (Hc2 : st_collecting m2 = true) by (etransitivity; [exact R9 | exact Hc]).
     destruct pr as [L| |].
     - (* the pass completed *)
       destruct (ap_done K P b E m HI HB m1 (PDone L) Hr L eq_refl) as (Hnd & Hpc & HM & HCl). fold m2 in Hpc, HM, HCl.
@@ -92,7 +92,7 @@ Section Once.
           change (m2 <| st_dropping := true |> <| dead ::= app L |>) with (enter L m2).
           destruct (enter_facts K b E L m2 HI2 HM HCl) as (HDM & HDC & HTI).
           destruct (rec_all K rec HrecQ Hbuf Hnf b E L (KDropList L L (st_dropping m2)) (enter L m2)) as (HP & F3 & G3).
-          { cbn. split; [|split; [reflexivity|split; [exact Hnd|split; [exists []; reflexivity|split; [exact HDM|split; [exact HDC|exact HTI]]]]]].
+          { cbn. split; [|split; [exact Hnd|split; [exists []; reflexivity|split; [exact HDM|split; [exact HDC|exact HTI]]]]].
             split; [exact Hnb2|]. split; [apply SInv_enter_dead; assumption|]. split; [exact Hc2|].
             split; [eapply Ibuf_same; [..|exact HB2]; reflexivity | exact Hn2]. }
           { cbn. split; [right; eapply Ibuf_same; [..|exact HB2]; reflexivity | exact Hc2]. }
